@@ -249,8 +249,9 @@ def c16_6(ctx):
 
     def match(node, ex, atoms):
         t = node.ast
-        if isinstance(t, ast.Compare) and len(t.ops) == 1 and isinstance(t.ops[0], (ast.Gt, ast.LtE)) and "quorum_m" in ast.unparse(t.left) and "len(key_records)" == ast.unparse(t.comparators[0]):
-            return BAD_TRUE if isinstance(t.ops[0], ast.Gt) else BAD_FALSE
+        r = rl.rel(t, lambda e: "quorum_m" in ast.unparse(e), "len(key_records)")
+        if r in (">", "<="):
+            return BAD_TRUE if r == ">" else BAD_FALSE
         return None
     return [rl.guard(ctx, spec, match, what="threshold greater than the number of keys is refused", key="m<=n")]
 
